@@ -22,7 +22,10 @@ RULE = (
     "join strings, typed trees. Oracle 1: reference renderer of the documented prefix grammar, compared line by "
     "line; oracle 2: prefix decoder rebuilds depth / last-sibling / has-children flags and the shape from the "
     "prefixes alone (styles with distinguishable segments). Non-trivial: rendered branch has depth >= 3 and a "
-    "non-last inner node; distinct = distinct (forest, start)."
+    "non-last inner node; distinct = distinct (forest, start). Part render-mutate-render renders ONE tree (tree and "
+    "one start node, 2-3 generated option sets, one of them without title line) before a generated mutation history "
+    "(move, remove, sort, clear, add, ...), after a generated subset of its steps and at its end - also trees that "
+    "were emptied again (non-trivial there: >= 2 renderings, one of a branch as above)."
 )
 ASSUMPTIONS = [
     "labels contain none of the connector characters and not the join string",
@@ -399,7 +402,56 @@ def hyp_cases(draw, tier):
     }
 
 
+def run_requery(case, rec):
+    """Render, restructure the tree (move, remove, sort, clear, ...), render the same tree again."""
+    from vlib import requery
+
+    typed = bool(case.get("typed"))
+    seen = []
+
+    def check(tree, rec, eng):
+        w = walk(tree)
+        start = w.pre[case["start"] % len(w.pre)] if (w.pre and case["start"] >= 0) else None
+        seen.append(nontrivial(w, w.kids[id(None)]))
+        if not w.pre:
+            rec.cls("emptied-tree" if eng.steps else "empty-tree")
+        ev = 0
+        for o in case["options"]:
+            style = tuple(o["style"]) if isinstance(o["style"], list) else o["style"]
+            ev += check_one(rec, tree, w, None, style, o["title"], True, o["repr"], o["join"], typed)
+            if start is not None and not rec.failed:
+                ev += check_one(rec, tree, w, start, style, None, o["add_self"], o["repr"], o["join"], typed)
+            if rec.failed:
+                break
+        rec.evals += ev
+
+    q = requery.run(case, rec, check)
+    rec.nt(bool(q and q >= 2 and any(seen)))
+
+
+@st.composite
+def requery_cases(draw, tier):
+    from vlib import requery
+
+    case = draw(requery.cases(max_ops=6, max_nodes=9,
+                              kinds=["move"] * 5 + ["remove"] * 2 + ["add"] * 2 + ["sort"] * 2 + ["clear", "remove_children", "add_node", "prepend_sibling", "set_data"]))
+    case["start"] = draw(st.integers(-1, 8))
+    one = st.fixed_dictionaries({
+        "style": st.one_of(st.sampled_from(STYLES), custom_style(), st.just("list"), st.none()),
+        "title": st.sampled_from([None, False, True, "Title X"]),
+        "add_self": st.booleans(),
+        "repr": st.sampled_from(["default", "fmt", "fmt2"]),
+        "join": st.sampled_from([None, "\n", ", "]),
+    })
+    # the first option set renders without a title line (the case in which an emptied tree has no line at all)
+    first = draw(one)
+    first["title"] = False
+    case["options"] = [first] + draw(st.lists(one, min_size=1, max_size=2))
+    return case
+
+
 PARTS = [
     Part("exhaustive", run_exhaustive, enum=enum_cases),
     Part("random-options", run_random, strategy=lambda tier: hyp_cases(tier), n={"quick": 2000, "thorough": 200000}),
+    Part("render-mutate-render", run_requery, strategy=lambda tier: requery_cases(tier), n={"quick": 400, "thorough": 30000}),
 ]
